@@ -146,10 +146,7 @@ impl<'a> Lowerer<'a> {
 
     fn lower_fields(&mut self, d: &Def, fields: &Fields, args: &[Ty]) -> Vec<Field<PortableForm>> {
         let prog = self.prog;
-        let r = Render {
-            prog,
-            params: &d.params,
-        };
+        let r = prog.render_for(d);
         let assoc = assoc_resolver(prog);
         let mut out = vec![];
         for f in fields.list() {
